@@ -156,7 +156,7 @@ def rule_validation(ctx):
     cps = au.params(chk)
     txt = ast.unparse(chk)
     # which value is tested
-    from ..core.template import find as _find
+    from ..core.template import find as _find, same
     mb = _find(f'_m_ = self.map.backward(np.asarray({cps[1]}))', chk)
     MV = mb[0][1]['_m_'] if mb else 'mapped'
     assigns = [n for n in ast.walk(chk) if isinstance(n, ast.Assign) and
@@ -180,13 +180,14 @@ def rule_validation(ctx):
         isinstance(b, ast.Raise) for b in n.body)]
     ttxt = [ast.unparse(t.test).replace(' ', '') for t in tests]
     ctx.check('C14.M3.check', '_check_positive_finite: strictly positive',
-              f'notnp.all(np.real({MV})>0.0)' in ttxt or
-              f'notnp.all(np.real({MV})>0)' in ttxt or
-              f'np.any(np.real({MV})<=0.0)' in ttxt,
+              any(same(f'not np.all(np.real({MV}) > 0.0)', t.test) is not None
+                  or same(f'np.any(np.real({MV}) <= 0.0)', t.test) is not None
+                  for t in tests),
               f'raising tests are {ttxt}: values must be rejected unless '
               'all > 0', ctx.where(mm, chk), sample={'tests': ttxt})
     ctx.check('C14.M3.check', '_check_positive_finite: finite',
-              f'notnp.all(np.isfinite({MV}))' in ttxt,
+              any(same(f'not np.all(np.isfinite({MV}))', t.test) is not None
+                  for t in tests),
               f'raising tests are {ttxt}: non-finite values must be '
               'rejected', ctx.where(mm, chk))
     # setters and _init_parameter call it before storing
